@@ -453,7 +453,10 @@ Proof.
   - destruct rest as [|[k v] t]; cbn [rename_walk map]; [now rewrite app_nil_r|].
     rewrite get_single. unfold ren at 1. cbn [fst snd]. rewrite (beqb_sym a k).
     destruct (beqb_spec k a) as [->|Hne].
-    + assert (Hh : has b (done ++ (a, v) :: t) = false).
+    + assert (Hab : beqb a b = false).
+      { apply beqb_false. intros ->. apply Hr. left. reflexivity. }
+      rewrite Hab.
+      assert (Hh : has b (done ++ (a, v) :: t) = false).
       { apply has_false_notin. unfold keys. rewrite map_app. cbn. rewrite in_app_iff. cbn. intros [H|[H|H]]; [tauto| |].
         - apply Hr. left. auto.
         - apply Hr. right. auto. }
@@ -527,6 +530,7 @@ Proof.
   - destruct (get_in_keys_values _ _ _ G) as [Hk Hn].
     assert (Pk : forall x, rename_bystander m (k, x) = false) by (intros; unfold rename_bystander; cbn; now rewrite Hk).
     assert (Pn : forall x, rename_bystander m (n, x) = false) by (intros; unfold rename_bystander; cbn; now rewrite Hn, andb_false_r).
+    destruct (beqb k n); [rewrite IH; now rewrite <- app_assoc|].
     destruct (has n (done ++ (k, v) :: t)).
     + rewrite IH. rewrite !filter_app. cbn. rewrite Pk. rewrite !filter_setv_out by auto. reflexivity.
     + rewrite IH. rewrite !filter_app. cbn. rewrite Pk, Pn. now rewrite app_nil_r.
@@ -618,11 +622,23 @@ Lemma unsparsify_full fill rs :
   /\ (forall k, In k (first_seen (List.concat (map keys rs))) <-> exists r, In r rs /\ In k (keys r)).
 Proof. split; [apply unsparsify_spec|]. split; [apply first_seen_nodup|apply union_in]. Qed.
 
-Lemma rename_same_name_witness : exists a r, wf r /\ rename [a; a] r <> r.
+Lemma walk_same_name fuel a : forall done rest,
+  (List.length rest <= fuel)%nat -> rename_walk fuel [(a, a)] done rest = done ++ rest.
 Proof.
-  exists (B "a"), [(B "a", B "1"); (B "b", B "2")]. split.
-  - apply wf_iff. vm_compute. reflexivity.
-  - vm_compute. discriminate.
+  induction fuel as [|fuel IH]; intros done rest Hlen.
+  - destruct rest; [cbn; now rewrite app_nil_r|cbn in Hlen; lia].
+  - destruct rest as [|[k v] t]; cbn [rename_walk]; [now rewrite app_nil_r|].
+    rewrite get_single. destruct (beqb_spec k a) as [->|Hne].
+    + rewrite beqb_refl. rewrite IH by (cbn in Hlen; lia). now rewrite <- app_assoc.
+    + rewrite IH by (cbn in Hlen; lia). now rewrite <- app_assoc.
+Qed.
+
+Lemma rename_same_name a r : rename [a; a] r = r.
+Proof. unfold rename. rewrite rename_map_single. apply (walk_same_name _ a [] r). lia. Qed.
+
+Lemma rename_inverse_gen a b r : wf r -> (b = a \/ ~ In b (keys r)) -> rename [b; a] (rename [a; b] r) = r.
+Proof.
+  intros Hwf [->|Hb]; [now rewrite !rename_same_name|]. apply rename_inverse; auto.
 Qed.
 
 (* ------------------------------------------------------------------ reshape wide-to-long then long-to-wide (one record) *)
